@@ -187,14 +187,23 @@ impl Sim {
         let n = cfg.clients;
         let slots = cfg.slots;
         let mut server = make_app(&cfg, false);
+        for _ in 0..cfg.entity_offset {
+            server.world_mut().spawn_empty();
+        }
         let ch = server.world().resource::<RepliconChannels>().clone();
         let skinds = ch.server_channels().to_vec();
         let ckinds = ch.client_channels().to_vec();
         let mut clients = Vec::new();
         for i in 0..n {
             let mismatch = cfg.auth == 2 && cfg.mismatch & (1 << i) != 0;
+            let mut app = make_app(&cfg, mismatch);
+            if cfg.entity_offset > 0 {
+                for _ in 0..(cfg.entity_offset as usize + 37 * (i + 1)) % 8300 {
+                    app.world_mut().spawn_empty();
+                }
+            }
             clients.push(ClientSim {
-                app: make_app(&cfg, mismatch),
+                app,
                 id: Entity::PLACEHOLDER,
                 connected: false,
                 session: 0,
